@@ -34,7 +34,7 @@ import (
 
 var (
 	c01hNames = []string{"zeta.example.net", "alpha.example.com", "mid.example.org", "lan.example.com", "beta.example.net",
-		"corp.example.org", "a.example", "z.example"}
+		"corp.example.org", "a.example", "z.example", "MiXed.Example.ORG", "Zulu.example.net"}
 	c01hServers = []string{"2001:db8::ffff", "2001:db8::1", "fd00::53", "2001:db8:0:1::53", "fe80::53", "2001:4860:4860::8888", "2001:db8::a"}
 )
 
